@@ -14,7 +14,11 @@
     unexported function (then every call site carries its own `callwrite:` row), or the row is a reviewed exception
     below (the `Append…` methods of `*Script`, whose contract is to extend the receiver; the transaction's own input and
     output lists);
-  * every external callee that receives a shared buffer is on the reviewed read-only list.
+  * every external callee that receives a shared buffer is on the reviewed read-only list;
+  * every byte slice an exported function returns (`return#i` rows) is freshly allocated, by the function or by an
+    allocator outside the packages — not a package-level table, not a parameter, not a field — or is one of three
+    reviewed accessors.  `CalcInputPreimageLegacy` returning the package-level `defaultHex` (finding F-C03-01) was such
+    a row.
 
   `Tx.Inscribe` before fix f38a724 had the rows `callwrite:bscript.Script.Append…#0` with origin
   `deref:field:bscript.InscriptionArgs.LockingScriptPrefix` (finding F-C20-04); a signature-hash routine that appends to
@@ -71,12 +75,30 @@ def reviewed : List (String × String × List String × String) := [
    "the caller's own getter receives the script it is asked to unlock")
 ]
 
+/-- results of functions outside the two packages that are newly allocated buffers -/
+def externalAllocators : List String := [
+  "call:json.Marshal#0", "call:crypto.Sha256d", "call:crypto.Sha256", "call:crypto.Hash160", "call:crypto.Ripemd160",
+  "call:hex.DecodeString#0", "call:base58.Decode", "call:bytes.Buffer.Bytes"
+]
+
+/-- reviewed `return#i` rows: exported functions that hand out memory they did not allocate, by documented contract -/
+def reviewedReturns : List (String × String × List String × String) := [
+  ("bt.Input.PreviousTxID", "return#0", ["field:bt.Input.previousTxID"], "accessor of the input's own txid"),
+  ("bscript.Script.PublicKeyHash", "return#0", ["elem:call:bscript.DecodeParts#0"],
+   "a window into the script's own bytes (DecodeParts returns sub-slices): reading accessor"),
+  ("bt.Tx.CalcInputSignatureHash", "return#0", ["call:dynamic#0"],
+   "the preimage routine's result in the SINGLE-bug case: CalcInputPreimage / CalcInputPreimageLegacy have their own rows")
+]
+
 def isReviewed (r : String × String × List String) : Bool :=
-  reviewed.any fun e => e.1 == r.1 && e.2.1 == r.2.1 && e.2.2.1 == r.2.2
+  (reviewed ++ reviewedReturns).any fun e => e.1 == r.1 && e.2.1 == r.2.1 && e.2.2.1 == r.2.2
 
 def rowOk (r : String × String × List String) : Bool :=
   isReviewed r ||
   (if hasPrefix "extcall:" r.2.1 then readOnlyCallees.contains (String.ofList (r.2.1.toList.drop 8))
+   else if hasPrefix "return#" r.2.1 then
+     -- an exported function hands out only memory it allocated (or an allocator outside the packages did)
+     r.2.2.all fun c => freshOrigin c || externalAllocators.contains c
    else r.2.2.all fun c => freshOrigin c || (hasPrefix "param:" c && unexported r.1))
 
 /-- which property's code a function belongs to (first matching prefix; the serialisation core is the default) -/
